@@ -421,6 +421,11 @@ func c20Merges(c *harness.Ctx) {
 			// one transfer list a prefix of the other
 			right.OutputTransfers = append(append([]vmcommon.OutputTransfer{}, cloneOutAcc(left).OutputTransfers...), right.OutputTransfers...)
 		}
+		// spare capacity of the merged-in transfer list carries sentinels: nobody may write there
+		fullR := right.OutputTransfers[:cap(right.OutputTransfers)]
+		for j := len(right.OutputTransfers); j < len(fullR); j++ {
+			fullR[j] = vmcommon.OutputTransfer{GasLimit: 0xDEADBEEF, Data: []byte("sentinel")}
+		}
 		rightCopy, thirdCopy := cloneOutAcc(right), cloneOutAcc(third)
 		leftCopy := cloneOutAcc(left)
 		wit := func() interface{} {
@@ -477,6 +482,35 @@ func c20Merges(c *harness.Ctx) {
 			}
 			if canonOutAcc(third) != canonOutAcc(thirdCopy) {
 				R.Violate("C20:merge-aliases-argument", "the second merged-in account changed through later merges into the same result", wit())
+			}
+			for j := len(right.OutputTransfers); j < len(fullR); j++ {
+				if fullR[j].GasLimit != 0xDEADBEEF || string(fullR[j].Data) != "sentinel" {
+					R.Violate("C20:merge-writes-argument-memory", "a later merge into the result wrote into the spare capacity of the merged-in account's transfer list (the result shares its backing array)", wit())
+					break
+				}
+			}
+			// two results that merged the same account stay independent of each other
+			r1, r2 := &vmcommon.OutputAccount{}, &vmcommon.OutputAccount{}
+			r1.MergeOutputAccounts(right)
+			r2.MergeOutputAccounts(right)
+			longA, longB := cloneOutAcc(thirdCopy), cloneOutAcc(thirdCopy)
+			for k := 0; k < len(right.OutputTransfers)+2; k++ {
+				longA.OutputTransfers = append(longA.OutputTransfers, vmcommon.OutputTransfer{Value: big.NewInt(int64(1000 + k)), GasLimit: 1})
+				longB.OutputTransfers = append(longB.OutputTransfers, vmcommon.OutputTransfer{Value: big.NewInt(int64(2000 + k)), GasLimit: 2})
+			}
+			r1.MergeOutputAccounts(longA)
+			r2.MergeOutputAccounts(longB)
+			for j, t := range r1.OutputTransfers {
+				var want vmcommon.OutputTransfer
+				if j < len(rightCopy.OutputTransfers) {
+					want = rightCopy.OutputTransfers[j]
+				} else {
+					want = longA.OutputTransfers[j]
+				}
+				if t.GasLimit != want.GasLimit || (t.Value == nil) != (want.Value == nil) || (t.Value != nil && t.Value.Cmp(want.Value) != 0) {
+					R.Violate("C20:merge-results-share-memory", fmt.Sprintf("two results merged the same account and then different ones: transfer %d of the first result was overwritten by the second result's merge", j), wit())
+					break
+				}
 			}
 		})
 		R.Cover("C20/merges")
@@ -1240,6 +1274,177 @@ func runC12(c *harness.Ctx) {
 		}
 	}
 	R.Eval(nh / c.Batches)
+
+	// ---- ESDT-transfer parser on well-formed calls: its report equals an independent reading ----
+	nonces := []uint64{0, 1, 2, 255, 256, 1<<32 - 1, 1 << 32, 1<<63 - 1, 1 << 63, 1<<63 + 1, ^uint64(0) - 1, ^uint64(0)}
+	values := []*big.Int{big.NewInt(0), big.NewInt(1), big.NewInt(255), gen.Pow2(63), gen.Pow2(64), new(big.Int).Add(gen.Pow2(64), big.NewInt(1)), gen.Pow2(200)}
+	calls := [][][]byte{nil, {[]byte("f")}, {[]byte("f"), {}}, {[]byte("fn"), []byte("a1"), {0}, {}}}
+	nwf := 0
+	for wi := 0; wi < c.Scale(6000, 60000)/c.Batches; wi++ {
+		fn := []string{FTransfer, FNFTXfer, FMulti}[r.Intn(3)]
+		atSender := r.Bool()
+		call := calls[r.Intn(len(calls))]
+		type tr struct {
+			id    []byte
+			nonce uint64
+			val   *big.Int
+		}
+		var trs []tr
+		k := 1
+		if fn == FMulti {
+			k = 1 + r.Intn(4)
+		}
+		for j := 0; j < k; j++ {
+			n := nonces[r.Intn(len(nonces))]
+			if fn == FTransfer {
+				n = 0
+			}
+			trs = append(trs, tr{id: []byte(fmt.Sprintf("TOK-%06x", r.Intn(3))), nonce: n, val: values[r.Intn(len(values))]})
+		}
+		payload := func(t tr) []byte {
+			b, _ := libTokenFromRef(&refcodec.Token{Type: 1, Value: t.val, Meta: &refcodec.MetaData{Nonce: t.nonce, Name: []byte("n"), Hash: []byte("h")}}).Marshal()
+			return b
+		}
+		snd, rcv := addrA, addrB
+		var args [][]byte
+		switch fn {
+		case FTransfer:
+			args = [][]byte{trs[0].id, trs[0].val.Bytes()}
+			atSender = false
+		case FNFTXfer:
+			if atSender {
+				rcv = snd
+				args = [][]byte{trs[0].id, gen.U64(trs[0].nonce), trs[0].val.Bytes(), addrB}
+			} else {
+				args = [][]byte{trs[0].id, gen.U64(trs[0].nonce), trs[0].val.Bytes(), payload(trs[0])}
+			}
+		default:
+			if atSender {
+				rcv = snd
+				args = [][]byte{addrB, gen.Big(int64(k))}
+			} else {
+				args = [][]byte{gen.Big(int64(k))}
+			}
+			for _, t := range trs {
+				switch {
+				case t.nonce == 0:
+					args = append(args, t.id, []byte{0}, t.val.Bytes())
+				case atSender:
+					args = append(args, t.id, gen.U64(t.nonce), t.val.Bytes())
+				default:
+					args = append(args, t.id, gen.U64(t.nonce), payload(t))
+				}
+			}
+		}
+		args = append(args, call...)
+		guard(R, "C12", "esdt-transfer-parser:well-formed", func() interface{} { return node.BuildData(fn, args) }, func() {
+			rep, err := xp.ParseESDTTransfers(snd, rcv, fn, args)
+			if err != nil || rep == nil {
+				R.Violate("C12:xfer-parser-rejects-well-formed:"+fn, fmt.Sprintf("the ESDT-transfer parser rejects a well-formed %s call: %v", fn, err), node.BuildData(fn, args))
+				return
+			}
+			bad := ""
+			if len(rep.ESDTTransfers) != len(trs) {
+				bad = fmt.Sprintf("%d transfers reported, %d listed", len(rep.ESDTTransfers), len(trs))
+			} else {
+				for j, t := range trs {
+					g := rep.ESDTTransfers[j]
+					wantType := uint32(vmcommon.Fungible)
+					if t.nonce > 0 || fn == FNFTXfer {
+						wantType = uint32(vmcommon.NonFungible)
+					}
+					if g == nil || !bytes.Equal(g.ESDTTokenName, t.id) || g.ESDTTokenNonce != t.nonce || g.ESDTValue == nil || g.ESDTValue.Cmp(t.val) != 0 || g.ESDTTokenType != wantType {
+						bad = fmt.Sprintf("transfer %d reported as %+v, listed (%q, nonce %d, value %s, type %d)", j, g, t.id, t.nonce, t.val, wantType)
+					}
+				}
+			}
+			if !bytes.Equal(rep.RcvAddr, addrB) {
+				bad = fmt.Sprintf("receiver %x reported", rep.RcvAddr)
+			}
+			wantFn, wantArgs := "", [][]byte{}
+			if len(call) > 0 {
+				wantFn, wantArgs = string(call[0]), call[1:]
+			}
+			if rep.CallFunction != wantFn || !argsEqual(rep.CallArgs, wantArgs) {
+				bad = fmt.Sprintf("attached call (%q, %d args) reported, (%q, %d args) carried", rep.CallFunction, len(rep.CallArgs), wantFn, len(wantArgs))
+			}
+			if bad != "" {
+				R.Violate("C12:xfer-parser-report:"+fn, "the ESDT-transfer parser's report differs from the call: "+bad, node.BuildData(fn, args))
+			}
+		})
+		R.Cover("C12/xfer-parser-well-formed")
+		nwf++
+	}
+	R.Eval(nwf)
+
+	// ---- histories of one builder instance against a reference builder ----
+	for h := 0; h < c.Scale(3000, 30000)/c.Batches; h++ {
+		b := txDataBuilder.NewBuilder()
+		refFn, refEl := "", []string{}
+		var trace []string
+		for st := 0; st < 1+r.Intn(10); st++ {
+			switch r.Intn(9) {
+			case 0:
+				f := []string{"f", "g", "", "issue"}[r.Intn(4)]
+				b.Func(f)
+				refFn = f
+				trace = append(trace, "Func("+f+")")
+			case 1:
+				v := byte(r.Intn(3))
+				b.Byte(v)
+				refEl = append(refEl, hex.EncodeToString([]byte{v}))
+				trace = append(trace, fmt.Sprintf("Byte(%d)", v))
+			case 2:
+				x := r.Bytes(r.Intn(3))
+				b.Bytes(x)
+				refEl = append(refEl, hex.EncodeToString(x))
+				trace = append(trace, fmt.Sprintf("Bytes(%x)", x))
+			case 3:
+				v := int64(r.Intn(3)) * 255
+				b.Int64(v)
+				refEl = append(refEl, hex.EncodeToString(big.NewInt(v).Bytes()))
+				trace = append(trace, fmt.Sprintf("Int64(%d)", v))
+			case 4:
+				b.Clear()
+				refFn, refEl = "", []string{}
+				trace = append(trace, "Clear()")
+			case 5:
+				want := ""
+				if len(refEl) > 0 {
+					want = refEl[len(refEl)-1]
+				}
+				if got := b.GetLast(); got != want {
+					R.Violate("C12:builder-history", fmt.Sprintf("after %v GetLast() = %q, expected %q", trace, got, want), trace)
+				}
+			case 6:
+				if len(refEl) > 0 {
+					b.SetLast("ab")
+					refEl[len(refEl)-1] = "ab"
+					trace = append(trace, "SetLast(ab)")
+				}
+			case 7:
+				b.Str("s")
+				refEl = append(refEl, hex.EncodeToString([]byte("s")))
+				trace = append(trace, "Str(s)")
+			default:
+				want := refFn
+				for _, e := range refEl {
+					want += "@" + e
+				}
+				if got := b.ToString(); got != want || string(b.ToBytes()) != want {
+					R.Violate("C12:builder-history", fmt.Sprintf("after %v ToString() = %q, expected %q", trace, got, want), trace)
+				}
+			}
+		}
+		want := refFn
+		for _, e := range refEl {
+			want += "@" + e
+		}
+		if got := b.ToString(); got != want {
+			R.Violate("C12:builder-history", fmt.Sprintf("after %v ToString() = %q, expected %q", trace, got, want), trace)
+		}
+		R.Cover("C12/builder-histories")
+	}
 }
 
 func panicKind(args [][]byte) string {
@@ -1581,8 +1786,8 @@ func c18Probes(c *harness.Ctx) {
 	// a schedule change, every priced function charges its own entry of the construction schedule
 	S0 := world.GasMapFrom(baseSched)
 	for _, sc := range Scenarios() {
-		if sc.Dest || sc.OwnField == "" {
-			continue
+		if sc.Dest || sc.OwnField == "" || sc.OwnSig {
+			continue // (OwnSig: the scenario exercises a known pricing finding that belongs to C16)
 		}
 		s0 := scnFor(c, sc, S0, "C18x")
 		l0 := sc.Exec(s0, gen.BigGas)
@@ -1599,7 +1804,7 @@ func c18Probes(c *harness.Ctx) {
 		}
 		want, exact := priceFormula(sc, per, S0)
 		if (exact && cons0 != want) || (!exact && cons0 < want) {
-			R.Violate("C18:binding-price:"+sc.Func, fmt.Sprintf("on a freshly built container %s (scenario %s) consumes %d, its own schedule entries give %d", sc.Func, sc.Name, cons0, want), s0.M.History)
+			R.Violate("C18:binding-price:"+scSig(sc), fmt.Sprintf("on a freshly built container %s (scenario %s) consumes %d, its own schedule entries give %d", sc.Func, sc.Name, cons0, want), s0.M.History)
 		}
 		R.Cover("C18/price-probes")
 		R.Eval(1)
